@@ -195,7 +195,7 @@ func c15Run(c *core.Ctx) {
 				for li := range c15WS {
 					for ti := range c15WS {
 						for pi := range c15Params {
-							if !match && !c.Thorough() {
+							if !match && !c.Thorough() && false {
 								// quick: non-matching pairs get 24 decorations (all cases x params, ws tied)
 								if li != ti {
 									continue
@@ -239,7 +239,7 @@ func c15Run(c *core.Ctx) {
 		for bi, b := range np {
 			for _, d1 := range decos {
 				for _, d2 := range decos {
-					if !c.Thorough() && a != b && (d1+d2)%4 != 0 {
+					if !c.Thorough() && a != b && (d1+d2)%2 != 0 {
 						continue
 					}
 					pos := (ai + bi + d1 + d2) % 4
